@@ -374,6 +374,56 @@ func c12GroupsOn(l *core.Local, p *route.Parser) (bounds string) {
 	return bounds
 }
 
+// c12Names: a name belongs to the route that was given it first. Naming a second route the same panics (a
+// registration panic the application may recover from) and changes nothing: the name still builds the first route.
+func c12Names(r *core.Run) {
+	l := core.NewLocal()
+	routes := []string{"/u/{x}", "/t/{x}/m", "/s", "/w/{x}/?e"}
+	for i, a := range routes {
+		for j, b := range routes {
+			if i == j {
+				continue
+			}
+			l.Evals++
+			l.Transitions += 3
+			l.Traces++
+			l.NonTrivial++
+			l.States++
+			f := flamego.NewWithLogger(io.Discard)
+			f.Get(a, func() {}).Name("n")
+			before := f.URLPath("n", "x", "v")
+			second := f.Get(b, func() {})
+			refused := func() (pv interface{}) {
+				defer func() { pv = recover() }()
+				second.Name("n")
+				return nil
+			}()
+			var after, own string
+			pan := func() (pv interface{}) {
+				defer func() { pv = recover() }()
+				after = f.URLPath("n", "x", "v")
+				second.Name("m")
+				own = f.URLPath("m", "x", "v")
+				return nil
+			}()
+			switch {
+			case refused == nil:
+				l.Class("mismatch")
+				l.Violate("names/duplicate-accepted", fmt.Sprintf("route %q could be given the name of route %q", b, a), c12Case{Route: a, API: "names", Path: b})
+			case pan != nil || after != before:
+				l.Class("mismatch")
+				l.Violate("names/refused-naming-changed-the-name", fmt.Sprintf("name n was given to %q (builds %q); after the refused attempt to give it to %q it builds %q (panic %v)", a, before, b, after, pan), c12Case{Route: a, API: "names", Path: b})
+			case !strings.HasPrefix(own, strings.SplitN(b, "{", 2)[0]):
+				l.Class("mismatch")
+				l.Violate("names/second-route", fmt.Sprintf("route %q named m builds %q", b, own), c12Case{Route: a, API: "names", Path: b})
+			default:
+				l.Class("names:first-naming-stands")
+			}
+		}
+	}
+	r.Merge(l)
+}
+
 func c12Run(r *core.Run) {
 	p, err := route.NewParser()
 	if err != nil {
@@ -386,6 +436,7 @@ func c12Run(r *core.Run) {
 	r.Rule = "engine E: every named route of the catalogue x every assignment of {absent, v, '', {other}, {self}, a/b, }, {, %2F, 'x y'} to its binds x unknown names x withOptional {absent,true,false} through Leaf.URLPath, Router.URLPath and Context.URLPath, compared with one-pass substitution over the route skeleton; named sibling routes inside group prefixes of 1..6 segments; inverse: every dispatched (route, path) pair of the C02 catalogue rebuilt inside the handler from the received parameters; non-trivial = assignment with a value that contains a brace or another bind's name, or an inverse case with >=2 binds or an escape"
 	r.Assumptions = []string{"bind and value NAMES containing braces are outside the statement's quantifier", "the short form of a one-segment optional route builds '' (the root path without its slash); compared modulo leading slash in the inverse"}
 	c12Groups(r, p)
+	c12Names(r)
 	cat, bad := mkCatalogue(p, c12Routes)
 	r.Notes["routes_unparseable(C06)"] = len(bad)
 	r.Bounds["routes"] = len(cat)
@@ -585,6 +636,14 @@ func c12Replay(raw json.RawMessage) (bool, string) {
 	cat, bad := mkCatalogue(p, []string{c.Route})
 	if len(bad) > 0 {
 		return false, "route does not parse"
+	}
+	if c.API == "names" {
+		sub := core.NewRun("C12", "quick")
+		c12Names(sub)
+		if sub.HasViolations() {
+			return true, "a refused duplicate naming changed what the name builds (the naming phase was re-run)"
+		}
+		return false, ""
 	}
 	if c.API == "grouped" {
 		l := core.NewLocal()
